@@ -134,6 +134,14 @@ partial def hasUnknownType : Val → Bool
   | .dict _ es => es.any (fun kv => hasUnknownType kv.1 || hasUnknownType kv.2)
   | _ => false
 
+/-- the assumptions of the C18 theorems about dictionary keys and enum type IDs, checked on every
+generated value (an op outside them is skipped and counted: `SKIP assumption-…`) -/
+partial def assumptionsHold : Val → Bool
+  | .some v => assumptionsHold v
+  | .arr _ vs => vs.all assumptionsHold
+  | .dict t es => (Val.dict t es).keysOK && es.all (fun kv => assumptionsHold kv.1 && assumptionsHold kv.2)
+  | v => v.idPrintable
+
 def parse2 (a b : String) : Option (Val × Val) := do
   let a ← parseField a; let b ← parseField b
   let a ← parseVal a; let b ← parseVal b
@@ -185,6 +193,7 @@ def judge (op : List String) (go : String) : Verdict :=
     match parse2 sa sb with
     | none => .skip "bad-op"
     | some (a, b) =>
+      if !(assumptionsHold a && assumptionsHold b) then .skip "assumption-keys-or-id" else
       let m := "e:" ++ bit (eq a b) ++ bit (eq b a) ++ bit (eq a a) ++ bit (eq b b) ++
         " h:" ++ hashStr a ++ "," ++ hashStr b ++ " c:" ++ cmpStr a b ++ "," ++ cmpStr b a
       let tags := [kindTag a, kindTag b, if eq a b then "eq" else "ne"]
@@ -197,6 +206,7 @@ def judge (op : List String) (go : String) : Verdict :=
   | ["eqhash", "triple", sa, sb, sc] =>
     match parse2 sa sb, (parseField sc).bind parseVal with
     | some (a, b), some c =>
+      if !(assumptionsHold a && assumptionsHold b && assumptionsHold c) then .skip "assumption-keys-or-id" else
       let m := "e:" ++ bit (eq a b) ++ bit (eq b c) ++ bit (eq a c) ++
         " c:" ++ cmpStr a b ++ "," ++ cmpStr b c ++ "," ++ cmpStr a c
       let tags := [kindTag a, kindTag b, kindTag c, if eq a b && eq b c then "chain-eq" else "chain-broken"]
